@@ -97,6 +97,15 @@ def cases(tier):
         if t != "bool":
             out.append(("XADDR-OPD %s" % t, "fn f() -> %s\n{\n\tvar r: %s = 1;\n\tvar s: %s = 2;\n\treturn: r + &s\n}\n" % (t, t, t), None))
         out.append(("XADDR-OK %s" % t, "fn g(x: &%s)\n{\n}\nfn f()\n{\n\tvar a: %s = %s;\n\tg(&a);\n}\n" % (t, t, lit), "OK"))
+    # more `&` than the reference has levels (D80: `&&x` for an `&i32`, `&&&x`, were accepted with the excess dropped)
+    for t in ("i32", "u8", "bool"):
+        lit = "true" if t == "bool" else "1"
+        for k in (2, 3):
+            out.append(("XADDR-EXCESS-INI %s %d" % (t, k), "fn f()\n{\n\tvar x: %s = %s;\n\tvar p: &%s = %sx;\n}\n" % (t, lit, t, "&" * k), None))
+            out.append(("XADDR-EXCESS-ARG %s %d" % (t, k), "fn g(p: &%s)\n{\n}\nfn f()\n{\n\tvar x: %s = %s;\n\tg(%sx);\n}\n" % (t, t, lit, "&" * k), None))
+            out.append(("XADDR-EXCESS-ASG %s %d" % (t, k), "fn f()\n{\n\tvar x: %s = %s;\n\tvar y: %s = %s;\n\tvar p: &%s = &x;\n\t&p = %sy;\n}\n" % (t, lit, t, lit, t, "&" * k), None))
+            out.append(("XADDR-EXCESS-MEM %s %d" % (t, k), "struct S\n{\n\tm: %s,\n}\nfn g(p: &%s)\n{\n}\nfn f(s: &S)\n{\n\tg(%ss.m);\n}\n" % (t, t, "&" * k), None))
+        out.append(("XADDR-LEVELS-OK %s" % t, "fn g(p: &&%s)\n{\n}\nfn f()\n{\n\tvar x: %s = %s;\n\tvar p: &%s = &x;\n\tg(&&p);\n}\n" % (t, t, lit, t), "OK"))
     # long chains of member accesses through pointers to pointers (each step needs two automatic dereferences:
     # the budget of the typer's autoderef loop was too small from 85 steps on - D61): the type of the whole
     # reference is the type of the last member
